@@ -6,6 +6,7 @@ from sa.paths import gate_check
 from sa.match import le_gate
 from sa.flow import all_defs
 from sa.build import AnalysisBroken
+from props.common import declref
 from sa.prog import short
 
 UNITS = ['src/core/Node.cpp', 'src/core/ChunkStore.cpp', 'src/daemon/ControlServer.cpp', 'src/libephemeralnet.cpp', 'src/main.cpp']
@@ -154,6 +155,14 @@ def run(ck):
               'the lifetime of the %s created by store_chunk lies in [min TTL, max TTL] for every requested TTL (%d abstract states at this site)' % (what, cnt), wit)
     for what in ('chunk record', 'shard records', 'self-announcement', 'manifest expiry'):
         ck.ob('C02.flow', 'C02.flow/store_chunk/%s/present' % what.replace(' ', '-'), what in kinds, store.loc(), 'store_chunk records a lifetime for the %s' % what)
+    # the manifest's expiry is written once, from the window-checked `now + ttl` above, and nothing else overwrites it
+    exp_sites = [node for (what, node) in seen if what == 'manifest expiry']
+    exp_writes = [i for i in store.walk() if store.nodes[i]['k'] in ('CXXOperatorCallExpr', 'BinaryOperator') and store.nodes[i].get('op') == '=' and
+                  (store.nodes[store.strip(store.kids(i)[1 if store.nodes[i]['k'] == 'CXXOperatorCallExpr' else 0])].get('m') or '').endswith('Manifest::expires_at')]
+    from sa.flow import value_sources as _vs
+    ok_exp = len(exp_writes) == 1 and any(x in exp_sites or store.strip(x) in exp_sites for x in _vs(store, store.kids(exp_writes[0])[-1]))
+    ck.ob('C02.flow', 'C02.flow/store_chunk/manifest-expiry-single-write', ok_exp, store.loc(exp_writes[1] if len(exp_writes) > 1 else (exp_writes[0] if exp_writes else None)),
+          'manifest.expires_at is assigned exactly once in store_chunk, from the window-checked system_clock::now() + ttl (found %d assignment(s))' % len(exp_writes))
     ck.extra['n1'] = {'sanitize_config_return_states': len(rets), 'store_chunk_sink_states': len(an3.calls), 'loops': an3.loop_notes[:6]}
 
     # ---- B2: ChunkStore::put ------------------------------------------------------------------------------------------------
@@ -191,6 +200,25 @@ def run(ck):
                 if (f.nodes[i].get('callee') or '') == NA + 'sanitize_config':
                     init_ok = True
     ck.ob('C02.own', 'C02.own/config_-init', init_ok, ctor[0].loc() if ctor else '', 'Node::config_ is initialised from sanitize_config(config)')
+    # ... and nothing else in the constructor reads the raw (unsanitised) parameter: every member built from configuration is
+    # built from config_ (the key manager's rotation interval, the store, the DHT, NAT, ...)
+    raw_uses = []
+    n_cfg_params = 0
+    for f in ctor:
+        for p_ in f.params:
+            if 'Config' not in (p_.get('t') or ''):
+                continue
+            n_cfg_params += 1
+            roots = list(f.d.get('inits', [])) + ([f.d['body']] if isinstance(f.d.get('body'), int) else [])
+            for i in f.walk():
+                nd = f.nodes[i]
+                if nd['k'] == 'DeclRefExpr' and nd.get('d') == p_['d']:
+                    inside = any((f.nodes[a].get('callee') or '') == NA + 'sanitize_config' for a in f.ancestors(i))
+                    if not inside:
+                        raw_uses.append((f, i))
+    ck.floor('C02.own', 'Config parameters of Node constructors', n_cfg_params, 1)
+    ck.ob('C02.own', 'C02.own/raw-config-only-sanitised', not raw_uses, raw_uses[0][0].loc(raw_uses[0][1]) if raw_uses else (ctor[0].loc() if ctor else ''),
+          'the constructor\'s raw Config parameter is read only as the argument of sanitize_config: every component is configured from the sanitised config_')
     writers = []
     allP = ck.prog(UNITS)
     nacc = 0
@@ -282,6 +310,36 @@ def run(ck):
                             narrow.append(j)
         ck.ob('C02.gate', 'C02.gate/STORE/ttl-not-narrowed', not narrow, f.loc(narrow[0]) if narrow else f.loc(i),
               'the TTL the STORE handler range-checks is the header value itself: no cast narrows it on the way (a 2^32 + 60 s request must be refused, not read as 60 s)')
+        # a TTL header that is present always becomes the checked value: no header value (0 included) falls back to the default
+        from sa.paths import must_precede as _mp
+        from sa.match import holds as _holds
+        finds = [j for j in f.walk() if f.nodes[j]['k'] == 'VarDecl' and f.nodes[j].get('init') is not None and f.nodes[j]['init'] >= 0 and
+                 any((f.nodes[k_].get('callee') or '').endswith('::find') and any(f.nodes[x]['k'] == 'StringLiteral' and f.nodes[x].get('s') == 'TTL' for x in f.walk(k_))
+                     for k_ in f.walk(f.nodes[j]['init']))]
+        hdr_ok = False
+        wit_h = None
+        if len(finds) == 1 and td is not None:
+            it_d = f.nodes[finds[0]]['d']
+            parsed = [j for j in f.walk() if f.nodes[j]['k'] == 'VarDecl' and f.nodes[j].get('init') is not None and f.nodes[j]['init'] >= 0 and
+                      any((f.nodes[k_].get('callee') or '').endswith('parse_uint64') and
+                          any(f.nodes[x]['k'] == 'DeclRefExpr' and f.nodes[x].get('d') == it_d for x in f.walk(k_)) for k_ in f.walk(f.nodes[j]['init']))]
+            if len(parsed) == 1:
+                p_d = f.nodes[parsed[0]]['d']
+                takes = {site_ for kind_, rhs_, site_ in all_defs(f, td) if kind_ == 'assign' and rhs_ is not None and
+                         any(f.nodes[x]['k'] == 'DeclRefExpr' and f.nodes[x].get('d') == p_d for x in f.walk(rhs_))}
+
+                def absent(fact):
+                    h = _holds(f, fact)
+                    if h is None:
+                        return False
+                    a_, op_, b_ = h
+                    return op_ == '==' and (declref(f, a_) == it_d or declref(f, b_) == it_d) and \
+                        any((f.nodes[x].get('callee') or '').endswith('::end') for y in (a_, b_) for x in f.walk(y))
+                fl = _mp(f, [i], lambda e: e in takes or any(f.is_in(t_, e) for t_ in takes) and f.nodes[e]['k'] == 'ExprWithCleanups', bypass=absent) if takes else [(i, ['no assignment of the parsed header value to the checked TTL'])]
+                hdr_ok = not fl
+                wit_h = fl[0][1] if fl else None
+        ck.ob('C02.gate', 'C02.gate/STORE/header-value-is-checked', hdr_ok, f.loc(i),
+              'whenever the request carries a TTL header, the value range-checked (and stored) is that header\'s parsed value: no header value is replaced by the default', wit_h)
         gates = [('ttl >= min_manifest_ttl', le_gate(f, from_cfg('min_manifest_ttl'), is_ttl)),
                  ('ttl <= max_manifest_ttl', le_gate(f, is_ttl, from_cfg('max_manifest_ttl')))]
         fails, checked = gate_check(f, [('store_chunk', i)], gates)
